@@ -545,6 +545,21 @@ fn corpus_long() -> Vec<Vec<u8>> {
             }
         }
     }
+    // (c) p digit pairs, a run of 249 / 250 / 251 bytes >= 128, a short tail: leaving a Base256 field at the
+    // two-byte length limit, at totals around the capacities 280 and 368
+    for p in (18usize..=32).chain(106..=120) {
+        if p > 32 && p % 3 != 0 {
+            continue;
+        }
+        for field in [249usize, 250, 251] {
+            for tail in [&b"12"[..], b"A", b"1", b"ab", b"1234"] {
+                let mut v: Vec<u8> = (0..2 * p).map(|i| b'0' + ((i * 7 + p) % 10) as u8).collect();
+                v.extend((0..field).map(|i| 0x80 + ((i * 37 + field) % 128) as u8));
+                v.extend_from_slice(tail);
+                out.push(v);
+            }
+        }
+    }
     let classes: [(&[u8], usize, usize); 5] = [(b"0123456789", 2, 1), (b"ABCDEFGHIJKLMNOPQRSTUVWXYZ", 3, 2), (b"abcdefghijklmnopqrstuvwxyz", 3, 2), (b"AB1*>C 2\rD", 3, 2), (b".,-/:;<=?@!#$%&()+", 4, 3)];
     for cap in [22usize, 62, 144, 280] {
         for (alphabet, chars, cws) in classes {
@@ -613,7 +628,7 @@ fn run_stages(ctx: &Arc<Ctx>) {
             corpus.push(EncCase { data: s.clone(), list, modes, macros: false, fnc1: false, eci: None, stratum: "corpus" });
         }
     }
-    ctx.run_enumerated("corpus", "enc", corpus, Some("fixed corpus: all strings of length <= 5 over a 7 letter alphabet + fixed-seed sample of 10 000 + 5 700 three-segment / boundary-byte strings + 140 whole-message strings at real capacities, 3 configurations"), |c| check_with(c, Strictness::Corpus, ctx));
+    ctx.run_enumerated("corpus", "enc", corpus, Some("fixed corpus: all strings of length <= 5 over a 7 letter alphabet + fixed-seed sample of 10 000 + 5 700 three-segment / boundary-byte strings + 440 whole-message strings at real capacities, 3 configurations"), |c| check_with(c, Strictness::Corpus, ctx));
     // (b) seeded exploration
     let o = EncGenOpts { long_weight: 0, macro_weight: 0, allow_fnc1: false, allow_macros_flag: false, short_only: true, ..Default::default() };
     ctx.run_generated("explore", "enc-explore", ctx.cases(200_000, 3_000_000), || g_enc_case(o).prop_map(|mut c| { c.macros = false; c }), |c| check_with(c, Strictness::Explore, ctx));
